@@ -19,6 +19,7 @@ import (
 func init() {
 	mon.Register(&mon.Check{
 		ID:        "C12",
+		Boost:     6,
 		Batches:   func(tier string) int { return 16 },
 		Run:       runC12,
 		Technique: "event-log checker: an injected accounting sink (rendering exactly as log.Logger.Printf, in half of the runs through a real log.Logger) and the connection's write events share one logical clock; for every SUCCESS reply the checker looks for exactly one earlier sink record carrying the request's unique task id and compares the decoded record with the request byte for byte",
